@@ -30,18 +30,19 @@ var crossIncludes = map[string][]struct{ other, from, as string }{
 	"C01": {{"C11", "C11.GRAMMAR", "C01.keys.config"}, {"C11", "C11.SAFE", "C01.keys.config.safe"}},
 	"C02": {{"C01", "C01.tables", "C02.tables"}, {"C05", "C05.P2", "C02.A6.parse"}, {"C11", "C11.GRAMMAR", "C02.A4.config"}, {"C11", "C11.SAFE", "C02.A4.config.safe"}},
 	"C03": {{"C05", "C05.P2", "C03.S3.parse.bytes"}},
-	"C05": {{"C01", "C01.tables", "C05.P3.hpke"}, {"C08", "C08.I6", "C05.P6.nil"}},
-	"C07": {{"C08", "C08.I1", "C07.SAFE"}, {"C01", "C01.tables", "C07.B5.serverhello"}},
+	"C05": {{"C01", "C01.tables", "C05.P3.hpke"}, {"C08", "C08.I6", "C05.P6.nil"}, {"C07", "C07.B4", "C05.P4.census"}},
+	"C04": {{"C10", "C10", "C04.ALERT.deliver.ctx"}, {"C02", "C02.A6", "C04.AUTH.aad"}},
+	"C07": {{"C08", "C08.I1", "C07.SAFE"}, {"C01", "C01.tables", "C07.B5.serverhello"}, {"C08", "C08.I6", "C07.SAFE.nil"}},
 	"C08": {{"C04", "C04.ALERT.map", "C08.I6.alert"}},
 	"C09": {{"C01", "C01.tables", "C09.EXIT.hpke"}, {"C11", "C11.GRAMMAR", "C09.KEYS.config"}, {"C11", "C11.SAFE", "C09.KEYS.config.safe"}},
 	"C10": {{"C08", "C08.I3", "C10.PROMPT.loops"}, {"C07", "C07.B3", "C10.PROMPT.reader"}, {"C04", "C04.ALERT.map", "C10.PROMPT.alert"}},
 	"C12": {{"C13", "C13.NAMES", "C12.NAMES"}},
 	"C13": {{"C12", "C12.T2", "C13.PAD.safe"}, {"C16", "C16.TTL", "C13.RDATA.ttl"}},
-	"C14": {{"C13", "C13.NAMES", "C14.N1.encode"}, {"C16", "C16.OWN", "C14.N5.own"}, {"C12", "C12.T4", "C14.N4.types"}},
+	"C14": {{"C13", "C13.NAMES", "C14.N1.encode"}, {"C16", "C16.OWN", "C14.N5.own"}, {"C12", "C12.T4", "C14.N4.types"}, {"C16", "C16.KEY", "C14.N9.cache"}},
 	"C15": {{"C16", "C16.SHARE", "C15.PURE.shared"}, {"C14", "C14.N9", "C15.PAIR.additional"}},
 	"C16": {{"C14", "C14.N5", "C16.NOFAIL.lookup"}},
 	"C17": {{"C19", "C19.HOST", "C17.SNI.transport"}, {"C19", "C19.AUTH", "C17.SNI.authority"}, {"C19", "C19.H3", "C17.PAIR.transport"}},
-	"C19": {{"C15", "C15.PURE", "C19.H3.shared"}, {"C16", "C16.SHARE", "C19.H3.cache"}, {"C13", "C13.RDATA", "C19.H3.records"}, {"C16", "C16.NOFAIL", "C19.UPGRADE.lookup"}},
+	"C19": {{"C15", "C15.PURE", "C19.H3.shared"}, {"C16", "C16.SHARE", "C19.H3.cache"}, {"C13", "C13.RDATA", "C19.H3.records"}, {"C16", "C16.NOFAIL", "C19.UPGRADE.lookup"}, {"C14", "C14.N4", "C19.H3.lookup"}, {"C14", "C14.N3", "C19.H3.chain"}},
 }
 
 // reportingPure: code whose job is to describe - String, Error, GoString and
@@ -356,7 +357,22 @@ func sentinelsDistinct(p *core.Prog, r *core.Run, rule string) {
 						}
 					}
 				}
-				ok := inits == 1 && others == 0 && val != nil && val.Op == "call" && (val.Name == "errors.New" || val.Name == "fmt.Errorf")
+				// a value made for this variable alone: errors.New, fmt.Errorf that
+				// wraps nothing, or a literal of a small error type (no module type
+				// has an Is method, see below) - not another error variable, not a
+				// join or wrap of one
+				ok := inits == 1 && others == 0 && val != nil
+				if ok {
+					switch {
+					case val.Op == "call" && (val.Name == "errors.New" || val.Name == "fmt.Errorf"):
+					case val.Op == "call":
+						ok = false
+					default:
+						if val.Any(func(e *core.Expr) bool { return e.Op == "global" || e.Op == "call" || e.Op == "param" }) {
+							ok = false
+						}
+					}
+				}
 				if ok && val.Name == "fmt.Errorf" {
 					// (not one that wraps another error: it would belong to that class too)
 					if c, isCall := val.Val.(*ssa.Call); isCall {
